@@ -44,6 +44,8 @@ CELLS = {
     'DUMP': ['DUMP'],
     # a big_map whose values are NOT duplicable (tickets): snapshots must still be taken and restored (a guard against DUP must not leak
     # into the interpreter's own backup copies)
+    # a failure INSIDE a DIP body (between protect and restore of the stack's protected prefix): the restored stack must not stay protected
+    'DIP_FAIL': ['PUSH nat 1', 'DIP { UNIT ; FAILWITH }'],
     'EMPTY_TK': ['EMPTY_BIG_MAP nat (ticket string)', 'PUSH nat 5', 'PUSH string "t"', 'TICKET', 'ASSERT_SOME', 'SOME', 'PUSH nat 1', 'UPDATE'],
 }
 CELL_NAMES = list(CELLS)
